@@ -213,9 +213,9 @@ def main(chk: C.Check, build_: C.Build) -> None:
         grp = items[gi:gi + GROUP]
         used = sorted({x["base"] for x in grp} & shared)
         defs = "\n".join(f"Definition B{b} : str := {C.cstr(cs.bases[b])}." for b in used)
-        C.correspond(chk, f"c17_{gi // GROUP}", IMPORTS, defs, grp, what="Lex.lex",
+        L.correspond(chk, f"c17_{gi // GROUP}", IMPORTS, defs, grp, what="Lex.lex",
                      shard=max(50, -(-len(grp) // SHARDS)))
-    C.correspond(chk, "c17_uni", IMPORTS, "", unicode_table_cases(), what="LexUni tables")
+    L.correspond(chk, "c17_uni", IMPORTS, "", unicode_table_cases(), what="LexUni tables", shard=50)
     C.proofs_verdict(chk, proofs_ok)
 
     chk.coverage.update({
